@@ -24,6 +24,8 @@ def run(facts, tier):
         ("emptiness predicate support", lambda fa: predicates.obligations(fa, None), 30, "the emptiness predicate still consults every field it depended on in the reviewed tree (spec/predicates.json)"),
         ("tautologies", lambda fa: generic_lints.tautologies(fa, None), 2, "no comparison / assignment / min-max with two identical operands, no if-else with identical arms"),
         ("duplicate operands", lambda fa: generic_lints.duplicate_conjuncts(fa, None), 2, "no logical chain tests the same operand twice (copy-paste of the wrong peer)"),
+        ("release guards", lambda fa: generic_lints.conditional_release_before_overwrite(fa, None), 1, "an owning pointer field that is overwritten had its old object released unconditionally or under the existence test of that very object (any other guard leaks it on the other paths)"),
+        ("invalidated pointers", lambda fa: generic_lints.invalidated_pointers(fa, None), 1, "no pointer / iterator obtained from begin() / end() / data() of an object is used after a call on that object that can move its storage (ensure_space, grow, resize ...)"),
         ("moves from lvalue operands", lambda fa: generic_lints.moves_from_lvalue_operands(fa, None), 1, "in the lvalue instantiation of a forwarding-reference operand nothing is std::move-d out of the operand (conditional_forward copies there): a sketch passed to be read keeps its items / summaries"),
         ("narrow shifts", lambda fa: generic_lints.narrow_variable_shift(fa, None), 1, "no count << level evaluated in 32 bits and only then widened to 64 bits (weights of large merged sketches wrap at 2^32)"),
         ("stale aliases", lambda fa: generic_lints.stale_aliases(fa, None), 1, "no use of a local pointer alias after its origin was re-assigned and the replaced object released (use after free; the replacement never receives the operation)"),
